@@ -186,6 +186,114 @@ Example c04_nonvacuous_delete :
   bt_root (fold_left ex_del [16;17;18;19;20]%N bt15) = None.
 Proof. vm_compute. repeat split; reflexivity. Qed.
 
+(* ---- the shape model (the trees compared with the real B-tree) IS the logical mutator ----------- *)
+(* Btree/Shape.v decorates the logical tree with what the code's shape decisions also depend on (dirty =
+   uncommitted page, allocated length of a leaf page, "same page" results) and takes the in-place decisions
+   from them (sufficient_insert/replace_inplace_space); `./check C04` compares its trees node by node with
+   Table::verif_shape after every operation.  Erasing the decorations gives exactly Mutator.v, with
+   Mutator's arbitrary in-place oracle instantiated by the decision Shape.v takes. *)
+From RV Require Import Btree.Shape Btree.ShapeP Btree.ShapeRefP Btree.ShapeInst Btree.ShapeInstP.
+
+Theorem c04_shape_insert_erases : forall K V (cmp : K -> K -> comparison)
+  (ksize : K -> N) (vsize : V -> N) (fixed_k fixed_v : bool) (page_size : N) (sep : K -> K -> K)
+  (st : @sbtree K V) k v,
+  let '(st', old) := s_insert cmp ksize vsize fixed_k fixed_v page_size sep st k v in
+  Mutator.insert cmp ksize vsize fixed_k fixed_v page_size sep
+    (s_oracle cmp ksize vsize fixed_k fixed_v page_size st k v) (erase_tree st) k v = (erase_tree st', old).
+Proof. exact (@erase_insert). Qed.
+
+Theorem c04_shape_delete_erases : forall K V (cmp : K -> K -> comparison)
+  (ksize : K -> N) (vsize : V -> N) (fixed_k fixed_v : bool) (page_size : N) (sep : K -> K -> K)
+  (st : @sbtree K V) k,
+  let '(st', old) := s_delete cmp ksize vsize fixed_k fixed_v page_size sep st k in
+  Mutator.delete cmp ksize vsize fixed_k fixed_v page_size sep (erase_tree st) k = (erase_tree st', old).
+Proof. exact (@erase_delete). Qed.
+
+Theorem c04_shape_pop_first_erases : forall K V (cmp : K -> K -> comparison)
+  (ksize : K -> N) (vsize : V -> N) (fixed_k fixed_v : bool) (page_size : N) (sep : K -> K -> K) (st : @sbtree K V),
+  let '(st', e) := s_pop_first cmp ksize vsize fixed_k fixed_v page_size sep st in
+  pop_first_tree cmp ksize vsize fixed_k fixed_v page_size sep (erase_tree st) = (erase_tree st', e).
+Proof. exact (@erase_pop_first). Qed.
+
+Theorem c04_shape_pop_last_erases : forall K V (cmp : K -> K -> comparison)
+  (ksize : K -> N) (vsize : V -> N) (fixed_k fixed_v : bool) (page_size : N) (sep : K -> K -> K) (st : @sbtree K V),
+  let '(st', e) := s_pop_last cmp ksize vsize fixed_k fixed_v page_size sep st in
+  pop_last_tree cmp ksize vsize fixed_k fixed_v page_size sep (erase_tree st) = (erase_tree st', e).
+Proof. exact (@erase_pop_last). Qed.
+
+(* commit only clears dirty flags *)
+Theorem c04_shape_commit_erases : forall K V (st : @sbtree K V), erase_tree (s_commit st) = erase_tree st.
+Proof. exact (@erase_commit). Qed.
+
+(* hence the refinement theorems hold for the shape model's trees: SInv st := TreeInv (erase_tree st),
+   sabs st := abs_tree (erase_tree st) *)
+Theorem c04_shape_insert_refines : forall K V (cmp : K -> K -> comparison), OrderLaws cmp ->
+  forall (ksize : K -> N) (vsize : V -> N) (fixed_k fixed_v : bool) (page_size : N) (sep : K -> K -> K),
+  valid_sep cmp sep ->
+  forall (st : @sbtree K V) k v, SInv cmp st ->
+  let '(st', old) := s_insert cmp ksize vsize fixed_k fixed_v page_size sep st k v in
+  SInv cmp st' /\ sabs st' = SortedMap.insert cmp (sabs st) k v /\ old = SortedMap.get cmp (sabs st) k.
+Proof. exact (@shape_insert_refines_lemma). Qed.
+
+Theorem c04_shape_delete_refines : forall K V (cmp : K -> K -> comparison), OrderLaws cmp ->
+  forall (ksize : K -> N) (vsize : V -> N) (fixed_k fixed_v : bool) (page_size : N) (sep : K -> K -> K),
+  valid_sep cmp sep ->
+  forall (st : @sbtree K V) k, SInv cmp st ->
+  let '(st', old) := s_delete cmp ksize vsize fixed_k fixed_v page_size sep st k in
+  SInv cmp st' /\ sabs st' = SortedMap.remove cmp (sabs st) k /\ old = SortedMap.get cmp (sabs st) k.
+Proof. exact (@shape_delete_refines_lemma). Qed.
+
+Theorem c04_shape_pop_first_refines : forall K V (cmp : K -> K -> comparison), OrderLaws cmp ->
+  forall (ksize : K -> N) (vsize : V -> N) (fixed_k fixed_v : bool) (page_size : N) (sep : K -> K -> K),
+  valid_sep cmp sep ->
+  forall (st : @sbtree K V), SInv cmp st ->
+  let '(st', e) := s_pop_first cmp ksize vsize fixed_k fixed_v page_size sep st in
+  SInv cmp st' /\ (e, sabs st') = pop_first (sabs st).
+Proof. exact (@shape_pop_first_refines_lemma). Qed.
+
+Theorem c04_shape_pop_last_refines : forall K V (cmp : K -> K -> comparison), OrderLaws cmp ->
+  forall (ksize : K -> N) (vsize : V -> N) (fixed_k fixed_v : bool) (page_size : N) (sep : K -> K -> K),
+  valid_sep cmp sep ->
+  forall (st : @sbtree K V), SInv cmp st ->
+  let '(st', e) := s_pop_last cmp ksize vsize fixed_k fixed_v page_size sep st in
+  SInv cmp st' /\ (e, sabs st') = pop_last (sabs st).
+Proof. exact (@shape_pop_last_refines_lemma). Qed.
+
+(* the separator functions the check runs the shape model with (C15's <&[u8]>::separator and
+   <&str>::separator behind a validity guard, `left` for fixed-width keys) satisfy valid_sep *)
+Theorem c04_shape_separators_valid :
+  valid_sep key_cmp key_sep_bytes /\ valid_sep key_cmp key_sep_str /\ valid_sep key_cmp key_sep_left.
+Proof. exact (conj key_sep_bytes_valid (conj key_sep_str_valid key_sep_left_valid)). Qed.
+
+(* non-vacuity: 48 inserts, a commit, 4 removes and 3 inserts on a 128-byte "page" give a tree of
+   height 2 with committed and uncommitted pages, leaves of different allocated length; it satisfies SInv,
+   and its erasure is what Mutator.v computes *)
+Definition ex_s_ins (st : @sbtree key bytes) (n : N) : @sbtree key bytes :=
+  fst (s_insert key_cmp key_size val_size false false 128%N key_sep_bytes st (KBytes [n * 37 mod 64; n]%N) (repeat n (N.to_nat (n mod 7)))).
+Definition ex_s_del (st : @sbtree key bytes) (n : N) : @sbtree key bytes :=
+  fst (s_delete key_cmp key_size val_size false false 128%N key_sep_bytes st (KBytes [n * 37 mod 64; n]%N)).
+Definition ex_shape1 : @sbtree key bytes :=
+  s_commit (fold_left ex_s_ins (List.map N.of_nat (seq 1 48)) sempty).
+Definition ex_shape2 : @sbtree key bytes :=
+  fold_left ex_s_ins [60; 61]%N
+    (fst (s_insert key_cmp key_size val_size false false 128%N key_sep_bytes
+            (fold_left ex_s_del [2;4;6;8]%N ex_shape1) (KBytes [7]%N) (repeat 5%N 150))).
+
+Fixpoint ex_count (t : @snode key bytes) : N * N * N :=      (* dirty pages, clean pages, leaves larger than one page *)
+  match t with
+  | SLeaf d a _ => (if d then 1 else 0, if d then 0 else 1, if 128 <? a then 1 else 0)%N
+  | SBranch d c0 rest =>
+      fold_left (fun acc p => let '(x, y, z) := acc in let '(x', y', z') := ex_count (snd p) in (x + x', y + y', z + z')%N)
+                rest (let '(x, y, z) := ex_count c0 in (if d then x + 1 else x, if d then y else y + 1, z)%N)
+  end.
+
+Example c04_nonvacuous_shape :
+  tree_checkb key_cmp (erase_tree ex_shape2) = true /\
+  match sb_root ex_shape2 with Some t => (sheight t, ex_count t) | None => (O, (0, 0, 0)%N) end = (2%nat, (10, 2, 1)%N) /\
+  sb_len ex_shape2 = 47%N /\
+  tget key_cmp (erase_tree ex_shape2) (KBytes [7]%N) = Some (repeat 5%N 150).
+Proof. vm_compute. repeat split; reflexivity. Qed.
+
 (* ------------------------------------------------------------------------------------------------
    Tie to the code (Gen/Fns.v is regenerated from btree_base.rs / btree_mutator.rs on every run by
    tools/gen_fns.py): the size and threshold functions the mutator model above is built from are equal to
